@@ -479,6 +479,7 @@ package jet
 //@   requires RtOK(st) && node != nil && WFCmd(node)
 //@   modifies @Interp
 //@   callsite (*Runtime).evalPrimaryExpressionGroup 0 requires [a-command-evaluates-its-base-expression] {C14} node == caller.node.CallExprNode.BaseExpr
+//@   check [a-call-of-something-without-a-value-is-an-error] {C12,C14} node.CallExprNode.CallArgs.Exprs != nil ==> RvValid(siteret("(*Runtime).evalPrimaryExpressionGroup", 0, 0))
 //@   callsite (*Runtime).evalCallExpression 0 requires [prefix-call-f-colon-a-b-is-f-of-a-b] {C14} baseExpr == lastret("(*Runtime).evalPrimaryExpressionGroup", 0) && args == caller.node.CallExprNode.CallArgs
 //@   callsite (*Runtime).evalSafeWriter 0 requires [a-safewriter-command-prints-its-own-arguments] {C14,C01} term == lastret("(*Runtime).evalPrimaryExpressionGroup", 0) && node == caller.node && len(v) == 0
 //@   callsite (*Runtime).evalPrimaryExpressionGroup count 1
